@@ -1,28 +1,44 @@
 """C17 - the static-files finder exposes exactly the allowed, non-forbidden files.
 
-Model: coq/Finder/Model.v   Theorems: coq/Props/C17.v   Generated constants: coq/Gen/C17.v (harness/gen_c17.py)
+Model: coq/Finder/Model.v   Proofs: coq/Finder/Proofs.v, Multi.v   Theorems: coq/Props/C17.v
+Generated constants: coq/Gen/C17.v (harness/gen_c17.py)
 Correspondence (model evaluated inside Coq by vm_compute, implementation = /repo's ComponentsFileSystemFinder):
-  F  real directory trees under /tmp/c17 x configurations x lookup paths through the PUBLIC api
-     finder.find(path, all=True) and finder.list([])                                     (+ direct property oracle)
-  X  every lookup string up to a length bound over the alphabet {'/', '.', 'a'} against a fixed small tree
+  F  real directory layouts under /tmp/c17: SEVERAL component directories (COMPONENTS.dirs incl. missing / duplicated /
+     un-normalised entries, COMPONENTS.app_dirs below two generated Django apps, nested directories, the same relative name
+     in two directories), prefix-named SIBLING directories and files outside every component directory
+     x configurations x lookup paths, through the PUBLIC api finder.find(path), finder.find(path, all=True),
+     finder.list([]), finder.list(ignore patterns), django.contrib.staticfiles.finders.find, the dev-server view
+     django.contrib.staticfiles.views.serve and the collectstatic management command (--dry-run; real copy in thorough)
+  X  every lookup string up to a length bound over the alphabet {'/', '.', 'a'} against a fixed small layout
   V  _is_path_valid on plain strings (names that cannot all be materialised: newlines, empty, slashes) x configurations
   J  django safe_join + os.path.relpath against the model's path arithmetic, several roots
-A V-mismatch against the independent Python statement of the property is materialised as a real tree and re-run through
-the public API so that a failing input (replay) is reported rather than a bare disagreement.
+The direct oracle restates the property on the implementation's answers only (never on the model): exposure of every file,
+containment of every returned / served / collected path in the component directories (os.path.realpath), defaults.
 """
+import fnmatch
+import hashlib
+import io
 import itertools
 import json
+import multiprocessing
 import os
 import re
 import shutil
+import sys
+import time
 
 import common as C
 from common import cbool, clist, copt, cstr
+
+sys.path.insert(0, os.path.join(os.path.dirname(os.path.abspath(__file__)), "c17apps"))
 
 IMPORTS = "From DJC Require Import Lib.Base Finder.Model."
 BASE = "/tmp/c17"
 BACKEND = [".py", ".pyc", ".html", ".django", ".dj", ".tpl"]
 META = set(".^$*+?{}[]\\|()")
+BTOK = "<B>"                      # placeholder for the absolute base directory of a layout inside lookup strings
+APPS = ("c17app_a", "c17app_b")   # generated Django apps (harness/c17apps); AppConfig.path is pointed into the layout
+DEFAULT_IGNORE = ["CVS", ".*", "*~"]      # django.contrib.staticfiles.apps.StaticFilesConfig.ignore_patterns
 
 # ------------------------------------------------------------------------------------------------
 # pattern / configuration descriptors  (JSON-able):  ["suf", s] | ["re", kind, s]
@@ -62,8 +78,8 @@ def cfg_coq(cfg):
         f(cfg.get("allowed")), f(cfg.get("forbidden")), f(cfg.get("deprecated")))
 
 
-def cfg_settings(cfg, root):
-    kw = {"dirs": [root], "app_dirs": []}
+def cfg_settings(cfg, dirs, app_dirs=()):
+    kw = {"dirs": list(dirs), "app_dirs": list(app_dirs)}
     for k, name in (("allowed", "static_files_allowed"), ("forbidden", "static_files_forbidden"),
                     ("deprecated", "forbidden_static_files")):
         if cfg.get(k) is not None:
@@ -102,113 +118,204 @@ def has_meta_suffix(cfg):
     return any(p[0] == "suf" and (set(p[1]) & META) for k in ("allowed", "forbidden", "deprecated") for p in (cfg.get(k) or []))
 
 
-# ------------------------------------------------------------------------------------------------
-# implementation runners
-# ------------------------------------------------------------------------------------------------
-def make_tree(root, dirs, files):
-    os.makedirs(root)
-    for d in dirs:
-        os.makedirs(os.path.join(root, d), exist_ok=True)
-    for f in files:
-        os.makedirs(os.path.dirname(os.path.join(root, f)), exist_ok=True)
-        with open(os.path.join(root, f), "w") as fh:
-            fh.write(f)          # content = relative path: a served body identifies the file
+def clean_rel(p):
+    return p != "" and all(s not in ("", ".", "..") for s in p.split("/"))
 
 
-def all_dirs(dirs, files):
+def under(q, root):
+    """component-wise containment (never a string-prefix test)"""
+    return q == root or q.startswith(root.rstrip("/") + "/")
+
+
+# ------------------------------------------------------------------------------------------------
+# physical layouts
+#   case = {"kind": "layout", "pdirs": [...], "pfiles": [...]        paths relative to the base directory B
+#           "dirs": [...]          COMPONENTS.dirs entries, relative to B (joined textually: may be un-normalised / missing)
+#           "apps": {"c17app_a": rel or None, ...}   AppConfig.path relative to B,   "app_dirs": [...]  COMPONENTS.app_dirs
+#           "configs": [...], "lookups": [... may contain <B> ...], "serve": bool, "tag": str}
+# ------------------------------------------------------------------------------------------------
+def closure_dirs(pdirs, pfiles):
     out = set()
-    for p in list(dirs) + [os.path.dirname(f) for f in files]:
+    for p in list(pdirs) + [os.path.dirname(f) for f in pfiles]:
         while p:
             out.add(p)
             p = os.path.dirname(p)
     return sorted(out)
 
 
-STATS = {"find_calls": 0, "list_calls": 0, "served_requests": 0}
+def make_layout(base, pdirs, pfiles):
+    os.makedirs(base)
+    for d in pdirs:
+        os.makedirs(os.path.join(base, d), exist_ok=True)
+    for f in pfiles:
+        os.makedirs(os.path.dirname(os.path.join(base, f)), exist_ok=True)
+        with open(os.path.join(base, f), "w", encoding="utf-8", errors="surrogateescape") as fh:
+            fh.write(os.path.join(base, f))          # content = absolute path: a served / copied body identifies the file
+
+
+def expected_locations(base, case):
+    """The component directories as the documentation of get_component_dirs defines them (set; order is unspecified)."""
+    out = set()
+    for d in case["dirs"]:
+        out.add(os.path.normpath(os.path.join(base, d)))
+    for app, rel in sorted((case.get("apps") or {}).items()):
+        if rel is None:
+            continue
+        for ad in case.get("app_dirs") or []:
+            p = os.path.join(base, rel, ad)
+            if os.path.exists(p):
+                out.add(os.path.normpath(p))
+    return out
+
+
+def loc_tree(base, case, root):
+    """(present, dirs, files) below the absolute directory `root`, from the layout description."""
+    pd = closure_dirs(case["pdirs"], case["pfiles"])
+    absd = {os.path.join(base, d) for d in pd} | {base}
+    present = root in absd
+    ds = sorted(d[len(root) + 1:] for d in absd if d.startswith(root + "/")) if present else []
+    fs = sorted(f[len(root) + 1:] for f in (os.path.join(base, x) for x in case["pfiles"]) if f.startswith(root + "/")) if present else []
+    return present, ds, fs
+
+
+STATS = {"find_calls": 0, "list_calls": 0, "served_requests": 0, "staticfiles_find_calls": 0, "collectstatic_runs": 0,
+         "collectstatic_real_copies": 0, "layouts": 0, "layouts_multi_root": 0, "layouts_with_app_dirs": 0,
+         "layouts_same_name_in_two_dirs": 0, "lookups_aimed_outside": 0, "returned_paths_checked_with_realpath": 0,
+         "newline_names_judged": 0, "newline_names_where_readings_differ": 0, "newline_differ_exposed_by_dollar_on_allowed_side": 0,
+         "newline_differ_hidden_by_dollar_on_forbidden_side": 0, "uppercase_backend_names_judged": 0,
+         "uppercase_backend_names_exposed_nondefault_config": 0, "uppercase_backend_names_exposed_default_config": 0,
+         "listed_files_shadowed_by_directory_in_dev_server": 0, "directories_returned_by_find": 0}
 _RF = []
 
 
-def run_served(cfg, paths):
-    """Dev-server / collectstatic entry points: django.contrib.staticfiles.views.serve(path) and get_finders().list().
-    -> ([body str | None | ("err", cls)], sorted listing)   (must run inside the settings override of run_finder)"""
+def set_app_paths(base, case):
+    from django.apps import apps
+    for app in APPS:
+        rel = (case.get("apps") or {}).get(app)
+        apps.get_app_config(app).path = os.path.join(base, rel if rel is not None else "_noapp_" + app)
+
+
+def run_config(base, case, cfg, lookups, do_served, thorough):
+    """Everything observed on the implementation for one configuration (public API only)."""
+    import djsetup
+    from django_components.finders import ComponentsFileSystemFinder
+    obs = {}
+    dirs = [os.path.join(base, d) for d in case["dirs"]]
+    with djsetup.components_settings(**cfg_settings(cfg, dirs, case.get("app_dirs") or [])):
+        finder = ComponentsFileSystemFinder()
+        obs["locs"] = [r for _, r in finder.locations]
+        obs["prefixes"] = sorted({p for p, _ in finder.locations})
+        finds = []
+        STATS["find_calls"] += 2 * len(lookups)
+        for p in lookups:
+            try:
+                r = finder.find(p)
+                r1 = ("none",) if (r == [] or r is None) else (("found", r) if isinstance(r, str) else ("err", repr(r)))
+            except Exception as e:  # noqa
+                r1 = ("susp",) if type(e).__name__ == "SuspiciousFileOperation" else ("err", type(e).__name__)
+            try:
+                r = finder.find(p, all=True)
+                ra = ("all", list(r)) if isinstance(r, list) and all(isinstance(x, str) for x in r) else ("err", repr(r))
+            except Exception as e:  # noqa
+                ra = ("susp",) if type(e).__name__ == "SuspiciousFileOperation" else ("err", type(e).__name__)
+            finds.append((r1, ra))
+        obs["finds"] = finds
+        STATS["list_calls"] += 2
+        for key, pats in (("listed", []), ("listed_ign", list(DEFAULT_IGNORE))):
+            try:
+                obs[key] = [(storage.location, path) for path, storage in finder.list(pats)]
+            except Exception as e:  # noqa
+                obs[key] = [("\0list() raised " + type(e).__name__, "")]
+        if do_served:
+            obs["served"] = run_served(base, case, cfg, lookups, thorough)
+    return obs
+
+
+def run_served(base, case, cfg, lookups, thorough):
+    """Dev server, django.contrib.staticfiles.finders.find and collectstatic (inside the settings override)."""
     from django.contrib.staticfiles import finders as sf
     from django.contrib.staticfiles.views import serve
     from django.core.exceptions import SuspiciousOperation
+    from django.core.management import call_command
     from django.http import Http404
-    from django.test import RequestFactory
+    from django.test import RequestFactory, override_settings
     if not _RF:
         _RF.append(RequestFactory())
+    out = {"reqs": [], "sf": [], "collect": None, "collect_ign": None, "real": None}
     sf.get_finder.cache_clear()
-    out = []
     try:
-        for p in paths:
+        for p in lookups:
             STATS["served_requests"] += 1
             try:
                 r = serve(_RF[0].get("/static/x"), p)
                 body = b"".join(r.streaming_content).decode("utf-8", "surrogateescape") if r.status_code == 200 else None
                 r.close()
-                out.append(body)
-            except (Http404, SuspiciousOperation):
-                out.append(None)
+                out["reqs"].append(("file", body) if body is not None else ("404",))
+            except Http404:
+                out["reqs"].append(("404",))
+            except SuspiciousOperation:
+                out["reqs"].append(("susp",))
             except Exception as e:  # noqa
                 # BadHeaderError: Django refuses a newline in the Content-Disposition file name - the file is found but the
                 # response cannot be built; neither an exposure nor a finder failure
-                out.append(("skip",) if type(e).__name__ == "BadHeaderError" else ("err", type(e).__name__))
-        try:
-            collected = sorted(path for finder in sf.get_finders() for path, storage in finder.list([]))
-        except Exception as e:  # noqa
-            collected = ["\0list() raised " + type(e).__name__]
+                out["reqs"].append(("skip",) if type(e).__name__ == "BadHeaderError" else ("err", type(e).__name__))
+            STATS["staticfiles_find_calls"] += 2
+            res = []
+            for kw in ({}, {"all": True}):
+                try:
+                    r = sf.find(p, **kw)
+                    res.append(("ok", r))
+                except Exception as e:  # noqa
+                    res.append(("susp",) if type(e).__name__ == "SuspiciousFileOperation" else ("err", type(e).__name__))
+            out["sf"].append(tuple(res))
+        sroot = os.path.join(base + "_static")
+        with override_settings(STATIC_ROOT=sroot):
+            for key, use_default in (("collect", False), ("collect_ign", True)):
+                STATS["collectstatic_runs"] += 1
+                buf = io.StringIO()
+                try:
+                    call_command("collectstatic", dry_run=True, interactive=False, verbosity=1, stdout=buf,
+                                 use_default_ignore_patterns=use_default)
+                    out[key] = re.findall(r"Pretending to copy '(.*?)'\n(?=Pretending to copy '|Found another file|\n\d+ static files? copied|\Z)",
+                                          buf.getvalue(), flags=re.S)
+                except Exception as e:  # noqa
+                    out[key] = ["\0collectstatic raised " + type(e).__name__]
+            if thorough:
+                STATS["collectstatic_real_copies"] += 1
+                try:
+                    call_command("collectstatic", interactive=False, verbosity=0, stdout=io.StringIO(), use_default_ignore_patterns=False)
+                    real = {}
+                    for d, _, fs in os.walk(sroot):
+                        for f in fs:
+                            fp = os.path.join(d, f)
+                            with open(fp, encoding="utf-8", errors="surrogateescape") as fh:
+                                real[fp[len(sroot) + 1:]] = fh.read()
+                    out["real"] = real
+                except Exception as e:  # noqa
+                    out["real"] = {"\0collectstatic raised " + type(e).__name__: ""}
+                finally:
+                    shutil.rmtree(sroot, ignore_errors=True)
     finally:
         sf.get_finder.cache_clear()
-    return out, collected
+    return out
 
 
-def run_finder(root, cfg, lookups, served_paths=None):
-    """-> (find results, sorted list() result[, served]) through the public API."""
-    import djsetup
-    from django_components.finders import ComponentsFileSystemFinder
-    STATS["find_calls"] += len(lookups)
-    STATS["list_calls"] += 1
-    if served_paths is not None:
-        with djsetup.components_settings(**cfg_settings(cfg, root)):
-            served = run_served(cfg, served_paths)
-        f, l = run_finder(root, cfg, lookups)
-        return f, l, served
-    with djsetup.components_settings(**cfg_settings(cfg, root)):
-        finder = ComponentsFileSystemFinder()
-        if [r for _, r in finder.locations] != [root]:
-            raise C.HarnessError("unexpected finder locations %r (root %r)" % (finder.locations, root))
-        finds = []
-        for p in lookups:
-            try:
-                r = finder.find(p, all=True)
-                if r == []:
-                    finds.append(("none",))
-                elif isinstance(r, list) and len(r) == 1 and isinstance(r[0], str):
-                    finds.append(("found", r[0]))
-                    r1 = finder.find(p)          # the all=False form must give the same answer
-                    if r1 != r[0]:
-                        finds[-1] = ("err", "find(all=False) returned %r, find(all=True) %r" % (r1, r))
-                else:
-                    finds.append(("err", repr(r)))
-            except Exception as e:  # noqa
-                finds.append(("susp",) if type(e).__name__ == "SuspiciousFileOperation" else ("err", type(e).__name__))
-        listed = []
-        try:
-            for path, storage in finder.list([]):
-                if os.path.realpath(storage.location) != os.path.realpath(root):
-                    raise C.HarnessError("list() yielded a foreign storage %r" % storage.location)
-                listed.append(path)
-        except C.HarnessError:
-            raise
-        except Exception as e:  # noqa
-            return finds, ["\0list() raised " + type(e).__name__]      # no real listing contains NUL => never equal to the model
-    return finds, sorted(listed)
+# ------------------------------------------------------------------------------------------------
+# Coq terms of the observations
+# ------------------------------------------------------------------------------------------------
+_B = [None]          # absolute base directory of the layout being printed: factored out of the literals as `b ++ ...`
+
+
+def bstr(x):
+    b = _B[0]
+    if b is not None and x.startswith(b):
+        return "(b ++ %s)" % cstr(x[len(b):])
+    return cstr(x)
 
 
 def fres_coq(r):
     if r[0] == "found":
-        return "FFound %s" % cstr(r[1])
+        return "FFound %s" % bstr(r[1])
     if r[0] == "none":
         return "FNotFound"
     if r[0] == "susp":
@@ -216,14 +323,79 @@ def fres_coq(r):
     return "FUnmodelled"     # never produced by the model for absolute roots => shows up as a disagreement
 
 
-def clean_rel(p):
-    return p != "" and all(s not in ("", ".", "..") for s in p.split("/"))
+def fares_coq(r):
+    if r[0] == "all":
+        return "FAll %s" % clist([bstr(q) for q in r[1]])
+    if r[0] == "susp":
+        return "FASuspicious"
+    return "FAUnmodelled"
 
 
-def oracle(chk, root, dirs, files, cfg, lookups, finds, listed, served_paths=(), served=None):
-    """Direct statement of the property on the public API results. Returns number of failures recorded."""
-    n0 = len(chk.failures)
-    rep = {"kind": "tree", "dirs": dirs, "files": files, "config": cfg, "lookups": lookups}
+def sres_coq(r):
+    if r[0] == "file":
+        return "SFile %s" % bstr(r[1])
+    if r[0] == "404":
+        return "S404"
+    if r[0] == "susp":
+        return "SSuspicious"
+    return "SUnmodelled"
+
+
+def loc_coq(root, present, ds, fs):
+    return "{| loc_root := %s; loc_present := %s; loc_tree := {| dirs := %s; files := %s |} |}" % (
+        bstr(root), cbool(present), clist([cstr(d) for d in ds]), clist([cstr(f) for f in fs]))
+
+
+def pairs_coq(l):
+    return clist(["(%s, %s)" % (bstr(a), cstr(b)) for a, b in l])
+
+
+def group_by_location(locs, pairs):
+    """list() yields location by location; sort inside a location. None if the grouping/order is not that of `locs`."""
+    idx = {r: i for i, r in enumerate(locs)}
+    last, out, cur = -1, [], []
+    for r, p in pairs:
+        i = idx.get(r)
+        if i is None or i < last:
+            return None
+        if i != last:
+            out += sorted(cur)
+            cur, last = [], i
+        cur.append((r, p))
+    return out + sorted(cur)
+
+
+# ------------------------------------------------------------------------------------------------
+# the direct oracle: the property, stated on the implementation's answers (no model involved)
+# ------------------------------------------------------------------------------------------------
+def ignored_by(path, patterns):
+    """django.contrib.staticfiles.utils.get_files: basename and full path of the file, basename of every directory."""
+    parts = path.split("/")
+    return any(fnmatch.fnmatchcase(x, pat) for pat in patterns for x in parts + [path])
+
+
+def first_wins(pairs):
+    seen, out = set(), []
+    for r, p in pairs:
+        if p not in seen:
+            seen.add(p)
+            out.append((r, p))
+    return out
+
+
+def oracle(fails, base, case, cfg, lookups, obs, locinfo):
+    """Appends (trigger, what, replay) to `fails`."""
+    rep = {k: case[k] for k in ("kind", "pdirs", "pfiles", "dirs", "apps", "app_dirs") if k in case}
+    rep.update(config=cfg, lookups=[p.replace(base, BTOK) for p in lookups])
+    locs = obs["locs"]
+
+    nfail = {}
+
+    def fail(trig_, what, **kw):
+        nfail[trig_] = nfail.get(trig_, 0) + 1
+        if nfail[trig_] > 3:              # a few per class, configuration and layout are enough
+            return
+        fails.append((trig_, what.replace(base, BTOK), dict(rep, **{k: (v.replace(base, BTOK) if isinstance(v, str) else v) for k, v in kw.items()})))
 
     def regex_reading(name):
         """Verdict if suffix strings were live regex text (the defect fixed by 6dbce54)."""
@@ -240,74 +412,259 @@ def oracle(chk, root, dirs, files, cfg, lookups, finds, listed, served_paths=(),
             return None
         return any(a) and not any(f)
 
-    def trig(name_rel, observed=None):
+    def trig(name_rel, observed=None, abspath=None):
+        if abspath is not None and observed is not None and observed == spec_valid(cfg, abspath) != spec_valid(cfg, name_rel):
+            return "c17-find-validates-absolute-path"
         if has_meta_suffix(cfg) and observed is not None and observed == regex_reading(name_rel) != spec_valid(cfg, name_rel):
             return "c17-suffix-metachar"
         return "c17-exposure"
-    # 1. list() == exactly the valid files
-    wrong = [f for f in files if not spec_ok(cfg, f, f in listed)] + [x for x in listed if x not in files]
-    if wrong:
-        chk.fail(trig(wrong[0], wrong[0] in listed), "finder.list() -> %r; wrong verdict for %r (the configuration allows exactly %r)"
-                 % (listed, wrong, sorted(f for f in files if spec_valid(cfg, f))), dict(rep, listed=listed, wrong=wrong))
-    byp = dict(zip(lookups, finds))
-    # 2. every file: found by its own name iff valid, and iff listed
-    for f in files:
-        r = byp.get(f)
-        if r is None:
+
+    # 0. the component directories
+    exp = expected_locations(base, case)
+    if set(locs) != exp or len(set(locs)) != len(locs) or obs["prefixes"] != [""] * (1 if locs else 0):
+        fail("c17-locations", "finder.locations = %r but the component directories are %r" % (locs, sorted(exp)), locations=locs)
+    present = {r: locinfo[r][0] for r in locs}
+    files_of = {r: locinfo[r][2] for r in locs}
+    dirs_of = {r: locinfo[r][1] for r in locs}
+    # every physical file that lies below SOME expected component directory must be judged (a dropped location hides files)
+    listed = obs["listed"]
+    if listed and listed[0][0].startswith("\0"):
+        fail("c17-find-error", "finder.list([]) raised %s" % listed[0][0][1:])
+        return
+    lset = set(listed)
+    # 1. list() == exactly the valid files of every existing component directory
+    for r in sorted(exp):
+        pr, _, fs = locinfo.get(r) or loc_tree(base, case, r)
+        for f in fs:
+            got = (r, f) in lset
+            if not spec_ok(cfg, f, got):
+                fail(trig(f, got), "finder.list() %s %r of component directory %r; the configuration says exposed=%r"
+                     % ("yields" if got else "does not yield", f, r, spec_valid(cfg, f)), location=r, name=f)
+                break
+    for r, p in listed:
+        if r not in exp or p not in (locinfo.get(r) or (0, 0, []))[2]:
+            fail("c17-escape-root" if not any(under(os.path.realpath(os.path.join(r, p)), e) for e in exp) else "c17-exposure",
+                 "finder.list() yields (%r, %r) which is not a file of a component directory" % (r, p), location=r, name=p)
+    if len(lset) != len(listed):
+        fail("c17-exposure", "finder.list() yields a (location, path) pair twice: %r" % (listed,))
+    # 1b. list(ignore_patterns): Django's ignore patterns may only REMOVE entries, and exactly the matching ones
+    want_ign = [x for x in listed if not ignored_by(x[1], DEFAULT_IGNORE)]
+    if sorted(obs["listed_ign"]) != sorted(want_ign):
+        fail("c17-list-ignore-patterns", "finder.list(%r) -> %r, expected list([]) minus the ignored names = %r"
+             % (DEFAULT_IGNORE, obs["listed_ign"], want_ign))
+    # 2. find
+    for p, (r1, ra) in zip(lookups, obs["finds"]):
+        for r_ in (r1, ra):
+            if r_[0] == "err":
+                fail("c17-find-error", "finder.find(%r) raised/returned %s" % (p, r_[1]), lookup=p)
+        if r1[0] == "err" or ra[0] == "err":
             continue
-        found = r[0] == "found"
-        if r[0] == "err" or not spec_ok(cfg, f, found) or found != (f in listed) or (found and r[1] != root + "/" + f):
-            absv = spec_valid(cfg, root + "/" + f)
-            t = "c17-find-validates-absolute-path" if (found == absv and absv != spec_valid(cfg, f)) else trig(f, found)
-            chk.fail(t, "finder.find(%r) -> %r but the configuration says exposed=%r (list() has it: %r)"
-                     % (f, r, spec_valid(cfg, f), f in listed), dict(rep, lookup=f, result=list(r)))
-    # 3. whatever find returns lies inside the component directory, exists, and - if it is a file - is a valid one
-    for p, r in zip(lookups, finds):
-        if r[0] == "err":
-            chk.fail("c17-find-error", "finder.find(%r) raised/returned %r" % (p, r[1]), dict(rep, lookup=p, result=list(r)))
-            continue
-        target = os.path.normpath(os.path.join(root, p))
-        inside = target == root or target.startswith(root + "/")
-        if r[0] != "found":
-            continue
-        q = r[1]
-        rel = q[len(root) + 1:]
-        if not (q == root or (q.startswith(root + "/") and clean_rel(rel))) or not inside \
-                or os.path.realpath(q) != q or not os.path.lexists(q):
-            chk.fail("c17-escape-root", "finder.find(%r) resolved to %r which is not a path inside %r" % (p, q, root),
-                     dict(rep, lookup=p, result=list(r)))
-        elif os.path.isfile(q) and not spec_ok(cfg, rel, True):
-            absv = spec_valid(cfg, q)
-            chk.fail("c17-find-validates-absolute-path" if absv else trig(rel, True),
-                     "finder.find(%r) exposes %r which the configuration does not allow" % (p, rel),
-                     dict(rep, lookup=p, result=list(r)))
-        elif os.path.isfile(q) and rel not in listed:
-            chk.fail("c17-find-list-disagree", "finder.find(%r) exposes %r but list() does not" % (p, rel),
-                     dict(rep, lookup=p, result=list(r)))
-    # 5. the dev-server view and the collectstatic listing expose exactly the same files
-    if served is not None:
-        bodies, collected = served
-        if collected != listed:
-            chk.fail("c17-collect-differs", "get_finders()...list() -> %r but finder.list() -> %r" % (collected, listed),
-                     dict(rep, collected=collected, listed=listed))
-        for p, b in zip(served_paths, bodies):
-            if b == ("skip",):
+        returned = ([r1[1]] if r1[0] == "found" else []) + (ra[1] if ra[0] == "all" else [])
+        # 2a. NO request path resolves outside the component directories: the real path of whatever is returned lies below
+        #     (component-wise) one of them - judged on the file system, independently of the model
+        for q in returned:
+            STATS["returned_paths_checked_with_realpath"] += 1
+            rq = os.path.realpath(q)
+            homes = [r for r in exp if under(rq, r)]
+            if not homes or not os.path.lexists(q):
+                fail("c17-escape-root", "finder.find(%r) returned %r (real path %r), which is not inside any component directory %r"
+                     % (p, q, rq, sorted(exp)), lookup=p, returned=q)
                 continue
-            if isinstance(b, tuple):
-                chk.fail("c17-serve-error", "staticfiles serve(%r) raised %s" % (p, b[1]), dict(rep, lookup=p))
-            elif b is not None and (b not in files or b not in listed or not spec_ok(cfg, b, True)):
-                chk.fail(trig(b, True) if b in files else "c17-escape-root",
-                         "dev server: GET %r answered 200 with the content of %r, which is not an exposable file of the tree" % (p, b),
-                         dict(rep, lookup=p, served=b))
-            elif p in files and (b == p) != (p in listed):
-                chk.fail(trig(p, b == p), "dev server: GET %r -> %r but list() has it: %r" % (p, b, p in listed), dict(rep, lookup=p, served=b))
-    # 4. default settings never expose backend code
+            if os.path.isdir(q):
+                STATS["directories_returned_by_find"] += 1
+                continue
+            # 2b. a returned FILE is exposable under (one of) the component directories it lies in, and list() has it
+            rels = [(r, rq[len(r) + 1:]) for r in homes if rq != r]
+            if not rels:
+                continue
+            if not any(spec_ok(cfg, rel, True) for _, rel in rels):
+                r0, rel0 = rels[0]
+                fail(trig(rel0, True, q), "finder.find(%r) exposes %r which the configuration does not allow" % (p, q), lookup=p, returned=q)
+            elif not any(x in lset for x in rels):
+                fail("c17-find-list-disagree", "finder.find(%r) exposes %r but list() does not have it" % (p, q), lookup=p, returned=q)
+        # 2c. find(p) is the head of find(p, all=True)
+        if ra[0] == "all" and (r1 != (("found", ra[1][0]) if ra[1] else ("none",))):
+            fail("c17-find-first-differs", "finder.find(%r) -> %r but find(all=True) -> %r" % (p, r1, ra[1]), lookup=p)
+        # 2d. a clean relative name: every FILE of that name is found iff exposable (iff listed), in the order of the locations
+        if clean_rel(p) and ra[0] == "all":
+            got = ra[1]
+            for r in locs:
+                if present.get(r) and p in files_of[r]:
+                    q = r + "/" + p
+                    found = q in got
+                    if not spec_ok(cfg, p, found) or found != ((r, p) in lset):
+                        fail(trig(p, found, q), "finder.find(%r, all=True) -> %r: file %r %s although the configuration says exposed=%r (list() has it: %r)"
+                             % (p, got, q, "returned" if found else "not returned", spec_valid(cfg, p), (r, p) in lset), lookup=p, returned=got)
+            order = [locs.index(q[:len(q) - len(p) - 1]) if (q.endswith("/" + p) and q[:len(q) - len(p) - 1] in locs) else -1 for q in got]
+            if order != sorted(order) or len(set(order)) != len(order):
+                fail("c17-find-order", "finder.find(%r, all=True) -> %r is not in the order of finder.locations %r" % (p, got, locs), lookup=p)
+        elif clean_rel(p) and ra[0] == "susp" and all(r.startswith("/") for r in locs):
+            fail("c17-find-error", "finder.find(%r, all=True) raised SuspiciousFileOperation for a clean relative name" % (p,), lookup=p)
+    # 3. default settings never expose backend code
     if is_default(cfg):
-        exposed = set(listed) | {r[1] for r in finds if r[0] == "found" and os.path.isfile(r[1])}
+        exposed = {p for _, p in listed}
+        for (r1, ra) in obs["finds"]:
+            exposed |= {q for q in ([r1[1]] if r1[0] == "found" else []) + (ra[1] if ra[0] == "all" else []) if os.path.isfile(q)}
         for e in sorted(exposed):
             if any(e.endswith(s) or e.endswith(s + "\n") for s in BACKEND):
-                chk.fail("c17-default-exposes-backend", "default settings expose %r" % e, dict(rep, exposed=e))
-    return len(chk.failures) - n0
+                fail("c17-default-exposes-backend", "default settings expose %r" % e, exposed=e)
+    # 4. dev server, django.contrib.staticfiles.finders.find, collectstatic
+    sv = obs.get("served")
+    if sv is not None:
+        pfiles_abs = {os.path.join(base, f) for f in case["pfiles"]}
+        for p, rq_, sfr, (r1, ra) in zip(lookups, sv["reqs"], sv["sf"], obs["finds"]):
+            # django.contrib.staticfiles.finders.find is the component finder's find (it is the only finder configured)
+            want1 = ("ok", r1[1]) if r1[0] == "found" else (("ok", None) if r1[0] == "none" else (r1[0],))
+            wanta = ("ok", ra[1]) if ra[0] == "all" else (ra[0],)
+            if r1[0] != "err" and ra[0] != "err" and (sfr[0][:2] != want1[:2] or sfr[1][:2] != wanta[:2]):
+                fail("c17-staticfiles-find-differs", "django.contrib.staticfiles.finders.find(%r) -> %r / all=True %r but the finder's own find -> %r / %r"
+                     % (p, sfr[0], sfr[1], r1, ra), lookup=p)
+            if rq_[0] == "skip":
+                continue
+            if rq_[0] == "err":
+                fail("c17-serve-error", "staticfiles serve(%r) raised %s" % (p, rq_[1]), lookup=p)
+                continue
+            if rq_[0] == "file":
+                b = rq_[1]
+                homes = [r for r in exp if under(os.path.realpath(b), r) and b != r] if b in pfiles_abs else []
+                rels = [(r, b[len(r) + 1:]) for r in homes]
+                if not homes:
+                    fail("c17-escape-root", "dev server: GET %r answered 200 with the content of %r, which is not inside any component directory %r"
+                         % (p, b, sorted(exp)), lookup=p, served=b)
+                elif not any(spec_ok(cfg, rel, True) and (r, rel) in lset for r, rel in rels):
+                    fail(trig(rels[0][1], True, b), "dev server: GET %r answered 200 with the content of %r, which is not an exposed file" % (p, b),
+                         lookup=p, served=b)
+            if clean_rel(p) and any((r, p) in lset for r in locs):
+                # a listed file requested by its own name: served from the first location that has something exposable of that name
+                firsts = [r for r in locs if present.get(r) and (p in files_of[r] or p in dirs_of[r]) and spec_valid(cfg, p)]
+                if firsts and p in dirs_of[firsts[0]]:
+                    STATS["listed_files_shadowed_by_directory_in_dev_server"] += 1
+                elif firsts and not p.endswith("\n") and rq_ != ("file", firsts[0] + "/" + p):
+                    fail(trig(p, False), "dev server: GET %r -> %r but list() has the file (first location %r)" % (p, rq_, firsts[0]), lookup=p)
+        want = [r + "/" + p for r, p in first_wins(listed)]
+        for key, w in (("collect", want), ("collect_ign", [r + "/" + p for r, p in first_wins(want_ign)])):
+            if sv[key] is not None and sorted(sv[key]) != sorted(w):
+                fail("c17-collect-differs", "collectstatic --dry-run%s copies %r but finder.list() (first destination wins) gives %r"
+                     % ("" if key == "collect" else " (default ignore patterns)", sv[key], w), collected=sv[key])
+            for q in sv[key] or []:
+                if not q.startswith("\0") and not any(under(os.path.realpath(q), r) for r in exp):
+                    fail("c17-escape-root", "collectstatic copies %r, which is not inside any component directory" % q, collected=q)
+        if sv["real"] is not None:
+            wantreal = {p: r + "/" + p for r, p in first_wins(listed)}
+            if sv["real"] != wantreal:
+                fail("c17-collect-differs", "collectstatic copied {destination: content} %r but finder.list() (first destination wins) gives %r"
+                     % (sv["real"], wantreal), collected=sorted(sv["real"]))
+
+
+def corner_stats(cfg, obs, locinfo):
+    """Literal-reading corners, reported (never alarmed): trailing newline names, upper-case backend extensions."""
+    lset = set(obs["listed"])
+    for r in obs["locs"]:
+        for f in locinfo[r][2]:
+            got = (r, f) in lset
+            if f.endswith("\n"):
+                STATS["newline_names_judged"] += 1
+                a, b = spec_valid(cfg, f, True), spec_valid(cfg, f, False)
+                if a != b:
+                    STATS["newline_names_where_readings_differ"] += 1
+                    if got and a:
+                        STATS["newline_differ_exposed_by_dollar_on_allowed_side"] += 1
+                    if (not got) and (not a):
+                        STATS["newline_differ_hidden_by_dollar_on_forbidden_side"] += 1
+            low = f.lower()
+            if low != f and any(low.endswith(s) for s in BACKEND) and not any(f.endswith(s) for s in BACKEND):
+                STATS["uppercase_backend_names_judged"] += 1
+                if got:
+                    STATS["uppercase_backend_names_exposed_default_config" if is_default(cfg) else "uppercase_backend_names_exposed_nondefault_config"] += 1
+
+
+# ------------------------------------------------------------------------------------------------
+# running one layout case (worker side)
+# ------------------------------------------------------------------------------------------------
+def run_case(base, case, thorough=False):
+    """-> dict(finder_term, served_term, fails, counts, replay)"""
+    pdirs = closure_dirs(case["pdirs"], case["pfiles"])
+    make_layout(base, pdirs, case["pfiles"])
+    fails, counts, fobs, sobs = [], [], [], []
+    _B[0] = base
+    lookups = [p.replace(BTOK, base) for p in case["lookups"]]
+    STATS["layouts"] += 1
+    try:
+        set_app_paths(base, case)
+        locs0, locinfo = None, {}
+        for ci, cfg in enumerate(case["configs"]):
+            do_served = bool(case.get("serve")) and (ci < 2 or is_default(cfg))
+            obs = run_config(base, case, cfg, lookups, do_served, thorough)
+            if locs0 is None:
+                locs0 = obs["locs"]
+                for r in locs0:
+                    locinfo[r] = loc_tree(base, case, r)
+                if len(locs0) > 1:
+                    STATS["layouts_multi_root"] += 1
+                if any(v is not None for v in (case.get("apps") or {}).values()):
+                    STATS["layouts_with_app_dirs"] += 1
+                names = [f for r in locs0 for f in locinfo[r][2]]
+                if len(set(names)) != len(names):
+                    STATS["layouts_same_name_in_two_dirs"] += 1
+            elif obs["locs"] != locs0:
+                fails.append(("c17-locations", "finder.locations changed between two configurations of the same directories: %r then %r"
+                              % (locs0, obs["locs"]), {"case": case}))
+                continue
+            oracle(fails, base, case, cfg, lookups, obs, locinfo)
+            corner_stats(cfg, obs, locinfo)
+            finds = obs["finds"]
+            nsusp = sum(1 for r1, ra in finds if ra[0] == "susp")
+            nfound = sum(1 for r1, ra in finds if r1[0] == "found")
+            nfiles = sum(len(locinfo[r][2]) for r in locs0)
+            listed = obs["listed"]
+            nontriv = 0 < len(listed) < nfiles and nfound > 0 and nsusp > 0
+            h = hashlib.md5(json.dumps([case["pdirs"], case["pfiles"], case["dirs"], case.get("apps"), case.get("app_dirs"), cfg,
+                                        case["lookups"]], sort_keys=True).encode()).hexdigest()
+            sample = None
+            if nontriv:
+                sample = {"locations": [r.replace(base, BTOK) for r in locs0], "files": {r.replace(base, BTOK): locinfo[r][2] for r in locs0},
+                          "config": cfg, "listed": [[r.replace(base, BTOK), p] for r, p in listed],
+                          "finds": [[p.replace(base, BTOK), repr(r1).replace(base, BTOK), repr(ra).replace(base, BTOK)]
+                                    for p, (r1, ra) in list(zip(lookups, finds))[:8]]}
+            counts.append((h, nontriv, case.get("tag", "layout") + ("/multi-root" if len(locs0) > 1 else ""), sample))
+            g = group_by_location(locs0, listed)
+            if g is None:
+                g = [("\0list() not grouped by location", "")]
+            fobs.append("(%s, %s, %s)" % (cfg_coq(cfg), clist(["(%s, %s)" % (fres_coq(r1), fares_coq(ra)) for r1, ra in finds]), pairs_coq(g)))
+            sv = obs.get("served")
+            if sv is not None:
+                reqs = [(p, r) for p, r in zip(lookups, sv["reqs"]) if r[0] != "skip"]
+                idx = {r: i for i, r in enumerate(locs0)}
+                coll, nth, lset = [], {}, set(listed)
+                for q in sv["collect"]:          # copies come location by location: the k-th copy of q belongs to its k-th location
+                    home = [r for r in locs0 if under(q, r) and q != r and (r, q[len(r) + 1:]) in lset]
+                    k = nth.get(q, 0)
+                    nth[q] = k + 1
+                    coll.append((home[k], q[len(home[k]) + 1:]) if k < len(home) else ("\0", q))
+                coll.sort(key=lambda x: (idx.get(x[0], -1), x[1]))
+                sobs.append("(%s, %s, %s)" % (cfg_coq(cfg), clist(["(%s, %s)" % (bstr(p), sres_coq(r)) for p, r in reqs]), pairs_coq(coll)))
+    finally:
+        shutil.rmtree(base, ignore_errors=True)
+        shutil.rmtree(base + "_static", ignore_errors=True)
+    locs_term = clist([loc_coq(r, *locinfo[r]) for r in (locs0 or [])])
+    fterm = "(let b := %s in (%s, %s, %s))" % (cstr(base), locs_term, clist([bstr(p) for p in lookups]), clist(fobs))
+    sterm = "(let b := %s in (%s, %s))" % (cstr(base), locs_term, clist(sobs)) if sobs else None
+    return {"fterm": fterm, "sterm": sterm, "fails": fails, "counts": counts}
+
+
+_W = {}
+
+
+def _worker_init(basedir, thorough):
+    _W["base"], _W["thorough"] = basedir, thorough
+
+
+def _worker(job):
+    idx, case = job
+    before = dict(STATS)
+    res = run_case(os.path.join(_W["base"], "%d" % idx), case, _W["thorough"])
+    res["stats"] = {k: STATS[k] - before[k] for k in STATS}
+    return idx, res
 
 
 class Roots:
@@ -319,7 +676,7 @@ class Roots:
 
     def new(self):
         self.n += 1
-        return os.path.join(self.base, "%d" % self.n)
+        return os.path.join(self.base, "s%d" % self.n)
 
     def cleanup(self):
         shutil.rmtree(self.base, ignore_errors=True)
@@ -329,37 +686,45 @@ class Roots:
             pass
 
 
-def tree_term(dirs, files):
-    return "{| dirs := %s; files := %s |}" % (clist([cstr(d) for d in dirs]), clist([cstr(f) for f in files]))
-
-
-def run_tree_case(chk, roots, dirs, files, cfgs, lookups, kind, keep_root=None, serve=True):
-    """Build the tree, run every configuration through the public API + oracle; return (coq term, replay objs)."""
-    root = keep_root or roots.new()
-    files = sorted(files)
-    dirs = all_dirs(dirs, files)
-    make_tree(root, dirs, files)
-    obs = []
-    try:
-        for ci, cfg in enumerate(cfgs):
-            if serve and (ci < 2 or is_default(cfg)):
-                sp = files + [p for p in lookups if p not in files][:10]
-                finds, listed, served = run_finder(root, cfg, lookups, sp)
-                oracle(chk, root, dirs, files, cfg, lookups, finds, listed, sp, served)
-            else:
-                finds, listed = run_finder(root, cfg, lookups)
-                oracle(chk, root, dirs, files, cfg, lookups, finds, listed)
-            nsusp = sum(1 for r in finds if r[0] == "susp")
-            nfound = sum(1 for r in finds if r[0] == "found")
-            nontriv = 0 < len(listed) < len(files) and nfound > 0 and nsusp > 0
-            chk.count((tuple(dirs), tuple(files), json.dumps(cfg, sort_keys=True), tuple(lookups)), nontriv, kind=kind,
-                      sample={"files": files, "config": cfg, "listed": listed,
-                              "finds": [[p] + list(r) for p, r in list(zip(lookups, finds))[:8]]} if nontriv else None)
-            obs.append("(%s, %s, %s)" % (cfg_coq(cfg), clist([fres_coq(r) for r in finds]), clist([cstr(x) for x in listed])))
-    finally:
-        shutil.rmtree(root, ignore_errors=True)
-    term = "(%s, %s, %s, %s)" % (cstr(root), tree_term(dirs, files), clist([cstr(p) for p in lookups]), clist(obs))
-    return term, {"kind": "tree", "dirs": dirs, "files": files, "configs": cfgs, "lookups": lookups}
+def run_cases(chk, roots, cases, thorough, jobs=None):
+    """Run all layout cases on the implementation (process pool), then the model inside Coq; record everything in chk."""
+    jobs = jobs or C.NCPU
+    t0 = time.time()
+    results = [None] * len(cases)
+    pooled = jobs > 1 and len(cases) > 8
+    if pooled:
+        ctx = multiprocessing.get_context("fork")
+        with ctx.Pool(jobs, initializer=_worker_init, initargs=(roots.base, thorough)) as pool:
+            for idx, res in pool.imap_unordered(_worker, list(enumerate(cases)), chunksize=4):
+                results[idx] = res
+    else:
+        _worker_init(roots.base, thorough)
+        for job in enumerate(cases):
+            idx, res = _worker(job)
+            results[idx] = res
+    t1 = time.time()
+    fterms, sterms, smap = [], [], []
+    for i, res in enumerate(results):
+        if pooled:                       # (serial runs have already counted in this process)
+            for k, v in res["stats"].items():
+                STATS[k] = STATS.get(k, 0) + v
+        for trigger, what, rep in res["fails"]:
+            chk.fail(trigger, what, rep)
+        for h, nontriv, kind, sample in res["counts"]:
+            chk.count(h, nontriv, sample=sample, kind=kind)
+        fterms.append(res["fterm"])
+        if res["sterm"] is not None:
+            sterms.append(res["sterm"])
+            smap.append(i)
+    bad = C.coq_eval_cases("C17", "finder", IMPORTS, "finder_case", "check_finder", fterms, shard=max(8, min(40, len(fterms) // (2 * jobs) + 1)))
+    for i in bad[:10]:
+        chk.disagree("Finder model != ComponentsFileSystemFinder.find / find(all=True) / list", cases[i])
+    bad = C.coq_eval_cases("C17", "served", IMPORTS, "served_case", "check_served", sterms, shard=max(8, min(40, len(sterms) // (2 * jobs) + 1)))
+    for i in bad[:10]:
+        chk.disagree("Finder model != staticfiles serve view / collectstatic --dry-run", cases[smap[i]])
+    chk.extra.setdefault("phase_wall_s", {})
+    chk.extra["phase_wall_s"]["F/X implementation"] = round(chk.extra["phase_wall_s"].get("F/X implementation", 0) + t1 - t0, 1)
+    chk.extra["phase_wall_s"]["F/X model (coqc)"] = round(chk.extra["phase_wall_s"].get("F/X model (coqc)", 0) + time.time() - t1, 1)
 
 
 # ------------------------------------------------------------------------------------------------
@@ -369,16 +734,17 @@ FILE_NAMES = ["a.js", "a.min.js", "a.minXjs", "abdxjs.js", "a.d.js", "x.css", "x
               "a.js\n", "a.py\n", "m.py", "m.pyc", "m.PY", "m.py.js", "m.js.py", "t.html", "t.htm", "t.django", "t.dj",
               "t.tpl", "w[1].js", "a+b.css", "a$.js", "a.js$", "(x).ts", "a^b.js", "a|b.js", "q?.js", "st*r.js", "b\\s.js",
               "sp ace.js", "ünï.js", "a.јs", "a.svg", "a.jpeg", "..js", "...", "a..js", "a.js.", "_p.js",
-              "a.min\njs", "{2}.js", "a.tsx", "py", "a.htmlx"]
-DIR_NAMES = ["sub", "d.js", "secret", "_priv", "py", "x.py", "s.min.js", "n\nl", "a b", "...", "a.js.d", "t.html"]
+              "a.min\njs", "{2}.js", "a.tsx", "py", "a.htmlx", "t.HTML", "m.Py", "evil.py\n", "CVS", ".hidden.js"]
+DIR_NAMES = ["sub", "d.js", "secret", "_priv", "py", "x.py", "s.min.js", "n\nl", "a b", "...", "a.js.d", "t.html", ".git", "a.js"]
 SUFFIXES = [".js", ".min.js", ".d.js", ".css", "", "js", ".py", ".html", ".j.", "a.js", "/a.js", "s/a.js", "b/a.js", ".js\n", "\n",
             ".JS", "[1].js", "$", ".js$", "+b.css", "\\s.js", ".*", ".", "..", "?.js", "(x).ts", "|b.js", "^b.js", "ï.js",
             ".ts", ".tsx", ".svg", ".pyc", ".dj", ".tpl", ".django", "{2}.js", ".min\njs", "x", ".js.py", ".py.js", "\\.js",
-            "[a-z]", ".j", "s", "secret/b.js"]
+            "[a-z]", ".j", "s", "secret/b.js", "../c_private/secret.js", "_private/secret.js", "secret.js"]
 COMPILED = [["re", "contains", ".min."], ["re", "starts", "secret/"], ["re", "starts", "a"], ["re", "endsz", ".js"],
             ["re", "segstart", "_"], ["re", "contains", "/"], ["re", "starts", ""], ["re", "contains", "py"],
             ["re", "starts", "/tmp"], ["re", "contains", "c17"], ["re", "endsz", ".py"], ["re", "segstart", "sub/"],
-            ["re", "starts", "sub"], ["re", "contains", "\n"], ["re", "segstart", "."]]
+            ["re", "starts", "sub"], ["re", "contains", "\n"], ["re", "segstart", "."], ["re", "starts", ".."],
+            ["re", "contains", "_private"]]
 
 WITNESS_CONFIGS = [
     {"allowed": [["suf", ".min.js"]], "forbidden": []},
@@ -393,7 +759,11 @@ WITNESS_CONFIGS = [
     {"forbidden": [], "deprecated": [["suf", ".js"]]},
     {"allowed": [["suf", ".py"], ["suf", ".js"]]},
     {"allowed": [["suf", ".py"], ["suf", ".js"]], "forbidden": []},
+    {"allowed": [["suf", ""]], "forbidden": [["suf", ".py"]]},
+    {"allowed": [["suf", ""]], "deprecated": [["suf", ".py"], ["suf", ".html"]]},
 ]
+SIBLING_SUFFIXES = ["_private", "x", ".bak", "2", " copy", "-old"]
+ROOT_NAMES = ["c", "comps", "k.d", "c/sub", "components"]
 
 
 def gen_pat(rng):
@@ -414,12 +784,12 @@ def gen_config(rng):
     r = rng.random()
     if r < 0.6:
         cfg["forbidden"] = [gen_pat(rng) for _ in range(rng.choice([0, 1, 1, 2, 3]))]
-    if rng.random() < 0.25:
+    if rng.random() < 0.3:
         cfg["deprecated"] = [gen_pat(rng) for _ in range(rng.choice([0, 1, 2]))]
     return cfg
 
 
-def gen_tree(rng):
+def gen_tree(rng, maxfiles=8):
     dirs, files, taken = [], set(), set()
     ndirs = rng.choice([0, 1, 1, 2, 3])
     dpool = [""]
@@ -430,35 +800,134 @@ def gen_tree(rng):
             taken.add(d)
             dpool.append(d)
             dirs.append(d)
-    for _ in range(rng.choice([1, 2, 3, 4, 5, 6, 8])):
+    for _ in range(rng.choice([n for n in [1, 2, 3, 4, 5, 6, 8] if n <= maxfiles])):
         parent = rng.choice(dpool)
         f = (parent + "/" if parent else "") + rng.choice(FILE_NAMES)
-        if f not in taken:
+        if f not in taken and not any(f == d or d.startswith(f + "/") for d in taken):
             taken.add(f)
             files.add(f)
     return dirs, sorted(files)
 
 
-def gen_lookups(rng, root, dirs, files, n_extra):
-    out = list(files)
-    base = os.path.basename(root)
-    parent = os.path.dirname(root)
-    fixed = ["", ".", "..", "/", "//", "/etc/passwd", "//etc/passwd", "../" + base, "../" + base + "x/a.js", root, root + "/",
-             root + "x/a.js", parent, "nope.js"]
-    out += rng.sample(fixed, 5)
-    variants = [lambda f: "./" + f, lambda f: "sub/../" + f, lambda f: f + "/", lambda f: "/" + f, lambda f: root + "/" + f,
-                lambda f: "../" + f, lambda f: "../" + base + "/" + f, lambda f: root + "x/../" + base + "/" + f,
-                lambda f: f.upper(), lambda f: f + "\n", lambda f: "zz/../../" + base + "/" + f, lambda f: "//" + root + "/" + f,
-                lambda f: f.replace("/", "//"), lambda f: f + "/..", lambda f: f + "/.", lambda f: "../../" + f,
-                lambda f: root + "/../" + f, lambda f: os.path.dirname(f), lambda f: "./" + f + "/../" + os.path.basename(f),
-                lambda f: ".../" + f, lambda f: root[1:] + "/" + f]
-    atoms = ["/", "/", ".", "..", "a.js", "sub", "\n", "js", ".js", "secret", "...", base]
+def single_root_case(dirs, files, configs, lookups, tag, serve=True, root="c", siblings=True):
+    """One component directory `root` holding the given tree; prefix-named siblings hold copies of its files."""
+    pfiles = [root + "/" + f for f in files]
+    if siblings:
+        first = [f for f in files if "/" not in f][:1] or ["a.js"]
+        pfiles += [root + "_private/secret.js", root + "_private/" + first[0], root + "x/a.js", "outside.js"]
+    return {"kind": "layout", "pdirs": [root] + [root + "/" + d for d in dirs], "pfiles": sorted(set(pfiles)), "dirs": [root],
+            "apps": {}, "app_dirs": [], "configs": configs, "lookups": lookups, "serve": serve, "tag": tag}
+
+
+def gen_layout(rng):
+    """Several component directories + prefix-named siblings + outside files."""
+    nroots = rng.choice([1, 1, 2, 2, 2, 3])
+    names = []
+    for _ in range(nroots):
+        n = rng.choice(ROOT_NAMES)
+        if n not in names:
+            names.append(n)
+    pdirs, pfiles, trees = [], [], {}
+    for n in names:
+        ds, fs = gen_tree(rng, 6 if nroots > 1 else 8)
+        trees[n] = (ds, fs)
+        pdirs += [n] + [n + "/" + d for d in ds]
+        pfiles += [n + "/" + f for f in fs]
+    # the same relative name in two directories / a directory shadowing a file of another location
+    if len(names) > 1 and trees[names[0]][1]:
+        for f in rng.sample(trees[names[0]][1], min(len(trees[names[0]][1]), rng.choice([1, 1, 2]))):
+            tgt = rng.choice(names[1:])
+            if rng.random() < 0.15:
+                pdirs.append(tgt + "/" + f)
+            else:
+                pfiles.append(tgt + "/" + f)
+    dirs_setting = []
+    for n in names:
+        v = rng.random()
+        dirs_setting.append(n if v < 0.8 else rng.choice([n + "/", n + "/../" + n, "./" + n, "x/../" + n, n + "//"]))
+    if rng.random() < 0.2:
+        dirs_setting.append("missing")
+    if rng.random() < 0.1:
+        dirs_setting.append(dirs_setting[0])
+    # app dirs
+    apps, app_dirs = {}, []
+    if rng.random() < 0.35:
+        app_dirs = rng.choice([["comps"], ["comps", "comps_private"], ["cdir", "comps"], ["deep/comps"]])
+        for app, rel in zip(APPS, ("appa", "appb")):
+            if rng.random() < 0.7:
+                apps[app] = rel
+                for ad in app_dirs:
+                    if rng.random() < 0.7:
+                        ds, fs = gen_tree(rng, 3)
+                        pdirs += [rel + "/" + ad] + [rel + "/" + ad + "/" + d for d in ds]
+                        pfiles += [rel + "/" + ad + "/" + f for f in fs]
+                        if trees[names[0]][1] and rng.random() < 0.5:
+                            pfiles.append(rel + "/" + ad + "/" + rng.choice(trees[names[0]][1]))
+                pfiles.append(rel + "/views.js")         # inside the app, outside its component directory
+    # prefix-named siblings and outside files
+    outside = []
+    roots_rel = list(names) + [rel + "/" + ad for rel in apps.values() for ad in app_dirs]
+    for n in roots_rel:
+        if rng.random() < 0.7:
+            sib = n + rng.choice(SIBLING_SUFFIXES)
+            if sib in roots_rel:
+                continue
+            cand = ["secret.js", "a.js", "m.py"] + [f for f in trees.get(n, ([], []))[1] if "/" not in f]
+            for f in rng.sample(cand, min(len(cand), rng.choice([1, 2, 3]))):
+                outside.append(sib + "/" + f)
+    if rng.random() < 0.6:
+        outside += ["outside.js"]
+    if rng.random() < 0.3:
+        outside += ["a.js"]
+    pfiles = sorted(set(pfiles))
+    pd = set(closure_dirs(pdirs, pfiles))
+    pfiles = [f for f in pfiles if f not in pd]
+    outside = [o for o in sorted(set(outside)) if o not in pd and o not in pfiles and not any(under(o, r) for r in roots_rel)]
+    pdirs = [d for d in pdirs if d not in pfiles and not any(under(d, f) for f in pfiles + outside)]
+    case = {"kind": "layout", "pdirs": sorted(set(pdirs)), "pfiles": sorted(set(pfiles + outside)), "dirs": dirs_setting, "apps": apps,
+            "app_dirs": app_dirs, "serve": True, "tag": "random-layout"}
+    return case, roots_rel, outside
+
+
+def gen_lookups(rng, case, roots_rel, outside, n_extra):
+    """Every file by its name relative to every component directory + traversal / absolute / prefix-trick variants, and for
+    every file OUTSIDE the component directories every spelling that could reach it."""
+    rels = []
+    for f in case["pfiles"]:
+        for r in roots_rel:
+            if f.startswith(r + "/"):
+                rels.append((r, f[len(r) + 1:]))
+    out = [f for _, f in rels]
+    root0 = roots_rel[0]
+    b0 = os.path.basename(root0)
+    fixed = ["", ".", "..", "/", "//", "/etc/passwd", "//etc/passwd", "../" + b0, "../" + b0 + "x/a.js", BTOK + "/" + root0,
+             BTOK + "/" + root0 + "/", BTOK + "/" + root0 + "x/a.js", BTOK, "nope.js", BTOK + "/" + root0 + "_private/secret.js",
+             "../" + b0 + "_private/secret.js", "../outside.js", BTOK + "/outside.js"]
+    out += rng.sample(fixed, 6)
+    for o in outside:
+        oabs = BTOK + "/" + o
+        cands = [oabs, "/" + oabs, oabs.replace("/", "//", 1)]
+        for r in roots_rel:
+            relp = os.path.relpath("/B/" + o, "/B/" + r)
+            cands += [relp, "./" + relp, "sub/../" + relp, "zz/../" + relp, BTOK + "/" + r + "/" + relp, relp.replace("../", "..//", 1)]
+        out += rng.sample(cands, min(len(cands), 4))
+        STATS["lookups_aimed_outside"] += min(len(cands), 4)
+    variants = [lambda r, f: "./" + f, lambda r, f: "sub/../" + f, lambda r, f: f + "/", lambda r, f: "/" + f,
+                lambda r, f: BTOK + "/" + r + "/" + f, lambda r, f: "../" + f, lambda r, f: "../" + os.path.basename(r) + "/" + f,
+                lambda r, f: BTOK + "/" + r + "x/../" + os.path.basename(r) + "/" + f, lambda r, f: f.upper(), lambda r, f: f + "\n",
+                lambda r, f: "zz/../../" + os.path.basename(r) + "/" + f, lambda r, f: "/" + BTOK + "/" + r + "/" + f,
+                lambda r, f: f.replace("/", "//"), lambda r, f: f + "/..", lambda r, f: f + "/.", lambda r, f: "../../" + f,
+                lambda r, f: BTOK + "/" + r + "/../" + f, lambda r, f: os.path.dirname(f),
+                lambda r, f: "./" + f + "/../" + os.path.basename(f), lambda r, f: ".../" + f, lambda r, f: (BTOK + "/" + r)[1:] + "/" + f,
+                lambda r, f: os.path.relpath("/B/" + rng.choice(roots_rel) + "/" + f, "/B/" + r)]
+    atoms = ["/", "/", ".", "..", "a.js", "sub", "\n", "js", ".js", "secret", "...", b0, b0 + "_private", "secret.js"]
+    dirs_rel = [d[len(r) + 1:] for d in case["pdirs"] for r in roots_rel if d.startswith(r + "/")]
     for _ in range(n_extra):
         r = rng.random()
-        if files and r < 0.7:
-            out.append(rng.choice(variants)(rng.choice(files)))
-        elif dirs and r < 0.8:
-            out.append(rng.choice(dirs))
+        if rels and r < 0.7:
+            out.append(rng.choice(variants)(*rng.choice(rels)))
+        elif dirs_rel and r < 0.8:
+            out.append(rng.choice(dirs_rel))
         else:
             out.append("".join(rng.choice(atoms) for _ in range(rng.randint(1, 6))))
     seen, res = set(), []
@@ -481,8 +950,17 @@ def load_corpus():
     return out
 
 
+def corpus_case(o):
+    if o.get("kind") == "layout":
+        c = dict(o)
+        c.setdefault("tag", "corpus")
+        c.setdefault("serve", True)
+        return c
+    return single_root_case(o.get("dirs", []), sorted(o["files"]), o["configs"], o["lookups"], "corpus")
+
+
 # ------------------------------------------------------------------------------------------------
-def run_valid_cases(chk, roots, n_cfg, n_names):
+def run_valid_cases(chk, roots, n_cfg, n_names, follow_up):
     """V: _is_path_valid on plain strings."""
     import djsetup
     from django_components.finders import ComponentsFileSystemFinder
@@ -490,7 +968,8 @@ def run_valid_cases(chk, roots, n_cfg, n_names):
     root = roots.new()
     os.makedirs(root)
     pool = list(FILE_NAMES) + [d + "/" + f for d in DIR_NAMES[:6] for f in FILE_NAMES[:12]] + \
-        ["", "\n", "/", ".", "a.js\n\n", "a.js\r\n", "\n.js", "a.js\n/", root + "/a.js", root + "/secret/b.js", "a.js/", "/a.js"]
+        ["", "\n", "/", ".", "a.js\n\n", "a.js\r\n", "\n.js", "a.js\n/", root + "/a.js", root + "/secret/b.js", "a.js/", "/a.js",
+         "../c_private/secret.js", "../cx/a.js", ".."]
     atoms = [".", "js", "j", "s", "\n", "/", "a", "min", "py", "$", "\\", "*", "X", "d", "b", "x", "[", "]", "c", "h", "t", "m", "l"]
     terms, cases, mism = [], [], []
     cfgs = [dict(c) for c in WITNESS_CONFIGS] + [gen_config(rng) for _ in range(n_cfg)]
@@ -502,7 +981,7 @@ def run_valid_cases(chk, roots, n_cfg, n_names):
         for s in sufs[:4]:
             names += ["a" + s, "a" + s + "\n", "d/" + s, s[1:] if s else "q", ("a" + s)[:-1] + "X" if s else "q"]
         obs = []
-        with djsetup.components_settings(**cfg_settings(cfg, root)):
+        with djsetup.components_settings(**cfg_settings(cfg, [root])):
             finder = ComponentsFileSystemFinder()
             for nm in names:
                 try:
@@ -518,21 +997,16 @@ def run_valid_cases(chk, roots, n_cfg, n_names):
         terms.append("(%s, %s)" % (cfg_coq(cfg), clist(obs)))
         cases.append((cfg, names))
     shutil.rmtree(root, ignore_errors=True)
+    t0 = time.time()
     bad = C.coq_eval_cases("C17", "valid", IMPORTS, "valid_case", "check_valid", terms, shard=60)
+    chk.extra.setdefault("phase_wall_s", {})["V model (coqc)"] = round(time.time() - t0, 1)
     for i in bad[:10]:
         chk.disagree("is_path_valid model != ComponentsFileSystemFinder._is_path_valid", {"kind": "valid", "config": cases[i][0], "names": cases[i][1]})
     # materialise mismatches against the property's reading as real trees (public API, concrete replay)
-    done = 0
-    for cfg, nm, v, sv in mism:
-        if done >= 8:
-            break
+    for cfg, nm, v, sv in mism[:8]:
         if clean_rel(nm) and "\0" not in nm and len(nm) < 200:
-            done += 1
-            try:
-                run_tree_case(chk, roots, [], [nm], [cfg], [nm], "materialised")
-            except OSError:
-                pass
-    if mism and not chk.failures:
+            follow_up.append(single_root_case([], [nm], [cfg], [nm], "materialised"))
+    if mism and not any(clean_rel(nm) for _, nm, _, _ in mism[:8]):
         cfg, nm, v, sv = mism[0]
         chk.disagree("_is_path_valid(%r) = %r but the property's reading of the configuration gives %r (name cannot be a file)" % (nm, v, sv),
                      {"kind": "valid", "config": cfg, "names": [nm]})
@@ -545,11 +1019,12 @@ def run_sj_cases(chk, maxlen, nrandom):
     rng = chk.rng
     roots = ["/tmp/c17/r", "/r", "/", "//r", "/a/b", "/a/", "/a/../b", "///r", "/a/./b//"]
     paths = ["".join(t) for L in range(maxlen + 1) for t in itertools.product("/.a", repeat=L)]
-    atoms = ["/", "/", ".", "..", "a", "b", "r", "tmp", "c17", "\n", "...", "a.js", "//"]
+    atoms = ["/", "/", ".", "..", "a", "b", "r", "tmp", "c17", "\n", "...", "a.js", "//", "r_private", "rx"]
     terms, cases = [], []
     for root in roots:
         ps = list(paths) + ["".join(rng.choice(atoms) for _ in range(rng.randint(1, 9))) for _ in range(nrandom)]
         ps += [root + "/" + p for p in rng.sample(paths, 40)] + [root + p for p in rng.sample(paths, 40)]
+        ps += [root + "_private/a", "../" + os.path.basename(root) + "_private/a", root + "x", root + "x/../" + os.path.basename(root)]
         for si in range(0, len(ps), 150):
             obs = []
             for p in ps[si:si + 150]:
@@ -562,9 +1037,51 @@ def run_sj_cases(chk, maxlen, nrandom):
                 obs.append("(%s, %s)" % (cstr(p), copt(r, lambda v: "(%s, %s)" % (cstr(v[0]), cstr(v[1])))))
             terms.append("(%s, %s)" % (cstr(root), clist(obs)))
             cases.append((root, ps[si:si + 150]))
+    t0 = time.time()
     bad = C.coq_eval_cases("C17", "sj", IMPORTS, "sj_case", "check_sj", terms, shard=8)
+    chk.extra.setdefault("phase_wall_s", {})["J model (coqc)"] = round(time.time() - t0, 1)
     for i in bad[:10]:
         chk.disagree("safe_join/relpath model != django safe_join / os.path.relpath", {"kind": "sj", "root": cases[i][0], "paths": cases[i][1]})
+
+
+N_RANDOM = {"quick": 260, "thorough": 5000}
+
+
+def build_cases(chk, thorough):
+    rng = chk.rng
+    cases = []
+    # ---- corpus first ----
+    for o in load_corpus():
+        cases.append(corpus_case(o))
+    # ---- X: every lookup string over {'/', '.', 'a'} up to a bound; component directory "a", prefix-named siblings "aa", "a." ----
+    L = 7 if thorough else 6
+    allp = ["".join(t) for n in range(L + 1) for t in itertools.product("/.a", repeat=n)]
+    xcfgs = [{"allowed": [["suf", "a"]], "forbidden": [["suf", ".a"]]}, {"allowed": [["suf", ""]], "forbidden": []}]
+    for si in range(0, len(allp), 120):
+        cases.append({"kind": "layout", "pdirs": ["a", "a/a", "a/a/...", "aa", "a."], "apps": {}, "app_dirs": [], "dirs": ["a"],
+                      "pfiles": ["a/a/a", "a/a/.a", "a/...", "a/a/.../a", "a/a.a", "aa/a", "a./a", "a.a"], "configs": xcfgs,
+                      "lookups": allp[si:si + 120] + ["../a/" + p for p in allp[si:si + 120:6]], "serve": si % 600 == 0,
+                      "tag": "exhaustive-lookup"})
+    # ---- F: single-file trees x witness configurations (smallest cases) ----
+    for f in FILE_NAMES:
+        for d in ("", "secret/", "d.js/"):
+            case = single_root_case([], [d + f], WITNESS_CONFIGS, [], "single-file")
+            case["lookups"] = gen_lookups(rng, case, ["c"], [x for x in case["pfiles"] if not x.startswith("c/")], 4)
+            cases.append(case)
+    # ---- F: two component directories holding the same name (smallest multi-directory cases) ----
+    for f in FILE_NAMES[:16]:
+        case = {"kind": "layout", "pdirs": ["c", "c_private", "appa/comps"], "pfiles": ["c/" + f, "c_private/" + f, "appa/comps/" + f, "cx/" + f],
+                "dirs": ["c", "c_private"], "apps": {APPS[0]: "appa"}, "app_dirs": ["comps"], "configs": WITNESS_CONFIGS, "serve": True,
+                "tag": "same-name-in-three-dirs"}
+        case["lookups"] = gen_lookups(rng, case, ["c", "c_private", "appa/comps"], ["cx/" + f], 4)
+        cases.append(case)
+    # ---- F: random layouts ----
+    for _ in range(N_RANDOM["thorough" if thorough else "quick"]):
+        case, roots_rel, outside = gen_layout(rng)
+        case["lookups"] = gen_lookups(rng, case, roots_rel, outside, 14)
+        case["configs"] = [gen_config(rng) for _ in range(5)] + ([{}] if rng.random() < 0.3 else [])
+        cases.append(case)
+    return cases, L
 
 
 def run(tier, seed):
@@ -575,82 +1092,89 @@ def run(tier, seed):
     chk = C.Check("C17", tier, seed)
     chk.prove()
     thorough = tier == "thorough"
-    rng = chk.rng
     roots = Roots()
     from django.test import override_settings
-    ov = override_settings(STATICFILES_FINDERS=["django_components.finders.ComponentsFileSystemFinder"], STATIC_URL="/static/", DEBUG=True)
+    ov = override_settings(STATICFILES_FINDERS=["django_components.finders.ComponentsFileSystemFinder"], STATIC_URL="/static/", DEBUG=True,
+                           INSTALLED_APPS=["django_components", "django.contrib.staticfiles"] + list(APPS))
     ov.enable()
     try:
-        terms, reps = [], []
-        # ---- corpus first (direct oracle; also compared with the model) ----
-        for o in load_corpus():
-            t, rep = run_tree_case(chk, roots, o.get("dirs", []), o["files"], o["configs"], o["lookups"], "corpus")
-            terms.append(t)
-            reps.append(rep)
-        # ---- X: every lookup string over {'/', '.', 'a'} up to a bound, fixed small tree ----
-        L = 7 if thorough else 6
-        allp = ["".join(t) for n in range(L + 1) for t in itertools.product("/.a", repeat=n)]
-        xcfgs = [{"allowed": [["suf", "a"]], "forbidden": [["suf", ".a"]]}, {"allowed": [["suf", ""]], "forbidden": []}]
-        for si in range(0, len(allp), 120):
-            root = roots.new()
-            t, rep = run_tree_case(chk, roots, ["a", "a/..."], ["a/a", "a/.a", "...", "a/.../a", "a.a"], xcfgs,
-                                   allp[si:si + 120] + ["../" + os.path.basename(root) + "/" + p for p in allp[si:si + 120:6]],
-                                   "exhaustive-lookup", keep_root=root)
-            terms.append(t)
-            reps.append(rep)
-        # ---- F: single-file trees x witness configurations (smallest cases), then random trees ----
-        for f in FILE_NAMES:
-            for d in ("", "secret/", "d.js/"):
-                root = roots.new()
-                lk = gen_lookups(rng, root, [], [d + f], 4)
-                t, rep = run_tree_case(chk, roots, [], [d + f], WITNESS_CONFIGS, lk, "single-file", keep_root=root)
-                terms.append(t)
-                reps.append(rep)
-        for _ in range(5000 if thorough else 260):
-            dirs, files = gen_tree(rng)
-            root = roots.new()
-            lk = gen_lookups(rng, root, dirs, files, 14)
-            cfgs = [gen_config(rng) for _ in range(5)] + ([{}] if rng.random() < 0.3 else [])
-            t, rep = run_tree_case(chk, roots, dirs, files, cfgs, lk, "random-tree", keep_root=root)
-            terms.append(t)
-            reps.append(rep)
-        bad = C.coq_eval_cases("C17", "finder", IMPORTS, "finder_case", "check_finder", terms, shard=40)
-        for i in bad[:10]:
-            chk.disagree("Finder model != ComponentsFileSystemFinder.find/list", reps[i])
+        cases, L = build_cases(chk, thorough)
+        run_cases(chk, roots, cases, thorough)
         # ---- V, J ----
-        run_valid_cases(chk, roots, 3000 if thorough else 220, 40)
+        follow_up = []
+        run_valid_cases(chk, roots, 3000 if thorough else 220, 40, follow_up)
+        if follow_up:
+            run_cases(chk, roots, follow_up, thorough, jobs=1)
         run_sj_cases(chk, 7 if thorough else 6, 1500 if thorough else 300)
     finally:
         ov.disable()
         roots.cleanup()
     chk.extra.update(STATS)
+    chk.extra["literal_reading_corners"] = {
+        "trailing_newline": "a suffix s is compiled to re.escape(s)+'$'; `$` also matches before ONE final newline. Observed on the "
+                            "implementation in this run: %d (file, config) pairs with a name ending in '\\n', of which %d are judged differently by "
+                            "'ends with' and by `$`: %d exposed through an ALLOWED suffix although the name does not literally end with it "
+                            "(e.g. 'a.js\\n' for '.js'), %d hidden through a FORBIDDEN suffix although the name does not literally end with it "
+                            "(e.g. 'evil.py\\n' is hidden when '.py' is forbidden and '' allowed - the corner errs on the safe side there). "
+                            "Reported, not alarmed: the oracle accepts either reading for names ending in a newline; theorems "
+                            "literal_reading_outside_newline_names (guard: name does not end in '\\n'), "
+                            "newline_names_are_judged_with_and_without_the_newline, forbidden_literal_always_respected state it exactly."
+                            % (STATS["newline_names_judged"], STATS["newline_names_where_readings_differ"],
+                               STATS["newline_differ_exposed_by_dollar_on_allowed_side"], STATS["newline_differ_hidden_by_dollar_on_forbidden_side"]),
+        "upper_case_extensions": "suffixes are compared case-sensitively. %d (file, config) pairs with an upper/mixed-case backend extension "
+                                 "(m.PY, t.HTML, m.Py): exposed under the DEFAULT settings: %d (the default allowed list is a lower-case whitelist); "
+                                 "exposed under non-default settings: %d (e.g. allowed=[''] with the default forbidden list exposes 'm.PY'). The "
+                                 "property's 'never exposes Python or template files' clause is stated for default settings only, so this is "
+                                 "reported, not alarmed. On a case-INSENSITIVE file system a lookup 'M.PY' would reach 'm.py' while being judged "
+                                 "as 'M.PY': not testable on this (case-sensitive) file system, recorded as an assumption."
+                                 % (STATS["uppercase_backend_names_judged"], STATS["uppercase_backend_names_exposed_default_config"],
+                                    STATS["uppercase_backend_names_exposed_nondefault_config"]),
+        "directory_shadowing": "%d requests for a LISTED file were answered 404 by the dev server because an earlier location has a DIRECTORY of "
+                               "the same exposable name (find returns the directory; same as Django's FileSystemFinder); modelled, not alarmed."
+                               % STATS["listed_files_shadowed_by_directory_in_dev_server"],
+        "location_order": "finder.locations comes from a Python set (get_component_dirs): the order of COMPONENTS.dirs is NOT preserved, so "
+                          "'first match wins' refers to finder.locations as observed, which the model takes as input.",
+    }
     chk.assumptions = [
-        "POSIX paths; component directories are absolute and resolved (get_component_dirs enforces both), no symlinks inside them",
-        "accepted corner, modelled faithfully: a suffix is compiled to re.escape(suffix)+'$' and `$` also matches before ONE trailing "
-        "newline, so a file literally named 'a.js\\n' counts as ending with '.js' (both for allowed and for forbidden suffixes)",
+        "POSIX paths, case-sensitive file system; component directories are absolute and resolved (get_component_dirs enforces both), "
+        "no symlinks inside them (returned paths are nevertheless judged by os.path.realpath in the direct oracle)",
+        "accepted corner, modelled faithfully and stated by theorems: a suffix is compiled to re.escape(suffix)+'$' and `$` also matches before ONE "
+        "trailing newline, so a file literally named 'a.js\\n' counts as ending with '.js' (both for allowed and for forbidden suffixes)",
         "compiled patterns given in the settings are opaque predicates on the path relative to the component directory; the theorems "
         "quantify over arbitrary predicates, the correspondence uses four families (contains / ^prefix / suffix\\Z / (^|/)prefix)",
-        "os.path.exists is modelled by membership in the set of paths of the generated tree (root, its directories, its files)",
+        "os.path.exists / isdir are modelled by membership in the set of paths of the generated layout (per location: root, its directories, its files)",
+        "the order of finder.locations is an input of the model (it is the iteration order of a Python set in get_component_dirs)",
         "the `prefix` branch of find_location is dead code (locations always carry prefix '') and is not modelled",
         "find() may return a DIRECTORY whose name passes the filter (same as Django's FileSystemFinder); the property speaks about files",
+        "a component 'directory' that is a regular file, and (prefix, path) tuples in COMPONENTS.dirs, are not generated",
     ]
+    nq = N_RANDOM["quick"]
     return chk.finish(
-        rule="F: real trees under /tmp/c17 (1-8 files from %d look-alike/multi-dot/upper-case/metacharacter/newline names in 0-3 nested dirs) x "
-             "configurations (suffix strings incl. multi-dot, metacharacters, '/', '', newline; compiled regexes; empty lists; unset; deprecated "
-             "forbidden_static_files) x lookup paths (every file by name + traversal / absolute / prefix-trick / re-entry variants), all through "
-             "finder.find(all=True), finder.find, finder.list([]); for the first two configurations of every tree (and every default one) also "
-             "through the dev-server view django.contrib.staticfiles.views.serve (file content = its relative path, so a 200 body names the file "
-             "served) and the collectstatic iteration get_finders()...list(). X: EVERY lookup string of length <= %d over {'/','.','a'} on a fixed tree. "
-             "V: _is_path_valid on plain strings x configurations. J: safe_join+relpath on every string <= %d over {'/','.','a'} + random x 9 roots. "
-             "Non-trivial: F = some but not all files listed and at least one lookup found and one refused as suspicious; V = name matches an "
-             "allowed pattern; J = path has a '..' segment or is absolute. Distinct = distinct (tree, configuration, lookups) / (config, name) / (root, path)."
-             % (len(FILE_NAMES), L, 7 if thorough else 6),
+        rule="F: real layouts under /tmp/c17: 1-3 component directories given through COMPONENTS.dirs (also missing, duplicated, un-normalised "
+             "entries, nested directories) and COMPONENTS.app_dirs below two generated Django apps, each holding 1-8 files from %d look-alike / "
+             "multi-dot / upper-case / metacharacter / newline names in 0-3 nested dirs, the same relative name in several directories, "
+             "prefix-named SIBLING directories (<dir>_private, <dir>x, <dir>.bak ...) and files outside every component directory "
+             "x configurations (suffix strings incl. multi-dot, metacharacters, '/', '', newline; compiled regexes; empty lists; unset; deprecated "
+             "forbidden_static_files) x lookup paths (every file by name + traversal / absolute / prefix-trick / re-entry variants, and every spelling "
+             "that could reach each outside file), all through finder.find(p), finder.find(p, all=True), finder.list([]), "
+             "finder.list(default ignore patterns); for the first two configurations of every layout (and every default one) also through "
+             "django.contrib.staticfiles.finders.find, the dev-server view django.contrib.staticfiles.views.serve (file content = its absolute path, "
+             "so a 200 body names the file served) and `collectstatic --dry-run` with and without the default ignore patterns (thorough: also a real "
+             "collectstatic into a scratch STATIC_ROOT). X: EVERY lookup string of length <= %d over {'/','.','a'} on a fixed layout with prefix-named "
+             "siblings. V: _is_path_valid on plain strings x configurations. J: safe_join+relpath on every string <= %d over {'/','.','a'} + random x 9 "
+             "roots. Non-trivial: F = some but not all files listed and at least one lookup found and one refused as suspicious; V = name matches an "
+             "allowed pattern; J = path has a '..' segment or is absolute. Distinct = distinct (layout, configuration, lookups) / (config, name) / "
+             "(root, path). Random layouts: %d quick / %d thorough."
+             % (len(FILE_NAMES), L, 7 if thorough else 6, nq, N_RANDOM["thorough"]),
         explanation="Theorems of Props/C17.v re-checked by coqc (incl. anchors against the constants generated from the current source); "
                     "model evaluated by vm_compute inside Coq on every case and compared with the implementation; the direct oracle restates "
-                    "the property in Python without `re` (list == exactly the valid files; file found by name iff valid iff listed; every find "
-                    "result lies inside the directory; defaults never expose backend suffixes).",
+                    "the property in Python without `re` and without the model (component directories == documented set; list == exactly the valid "
+                    "files of every directory; every file found by name iff valid iff listed, in location order; the REAL PATH of every path returned "
+                    "by find / served by the dev server / copied by collectstatic lies below a component directory; defaults never expose backend "
+                    "suffixes).",
         extra_trusted=["modelled, not verified: Python `re` (escape, `$`), posixpath.join/normpath/relpath, django safe_join, os.path.exists, "
-                       "FileSystemStorage.listdir / get_files (the model filters the given file list)",
+                       "FileSystemStorage.listdir / get_files (the model filters the given file list), collectstatic's found_files bookkeeping, "
+                       "staticfiles.views.serve (normpath + lstrip + find) and django.views.static.serve (404 for directories)",
                        "harness/gen_c17.py (prints the default lists and the probe regex text as Coq literals)"])
 
 
@@ -660,33 +1184,46 @@ def replay(path):
     r = json.load(open(path))
     case = r.get("case", r)
     print(json.dumps(r, indent=1)[:4000])
-    if case.get("kind") == "tree":
-        chk = C.Check("C17", "quick", 0)
-        roots = Roots()
-        try:
-            cfgs = case.get("configs") or [case["config"]]
-            lookups = case.get("lookups") or list(case["files"])
-            if case.get("lookup") is not None and case["lookup"] not in lookups:
-                lookups = lookups + [case["lookup"]]
-            root = roots.new()
-            files = sorted(case["files"])
-            dirs = all_dirs(case.get("dirs", []), files)
-            make_tree(root, dirs, files)
-            for cfg in cfgs:
-                finds, listed = run_finder(root, cfg, lookups)
-                print("config:", cfg)
-                print(" implementation list():", listed)
-                print(" property says        :", sorted(f for f in files if spec_valid(cfg, f)))
-                for p, fr in zip(lookups, finds):
-                    print(" implementation find(%r) -> %r" % (p, fr))
-                oracle(chk, root, dirs, files, cfg, lookups, finds, listed)
-            shutil.rmtree(root, ignore_errors=True)
-            t, _ = run_tree_case(chk, roots, case.get("dirs", []), files, cfgs, lookups, "replay")
-            bad = C.coq_eval_cases("C17", "replay", IMPORTS, "finder_case", "check_finder", [t])
-            print("model agrees with implementation:", not bad)
-            for trig, what, _ in chk.failures[:10]:
-                print("ORACLE FAILURE [%s]: %s" % (trig, what))
-            return 1 if chk.failures else 0
-        finally:
-            roots.cleanup()
-    return 0
+    kind = case.get("kind")
+    if kind == "tree":                      # replay files written before the multi-directory harness
+        case = single_root_case(case.get("dirs", []), sorted(case["files"]), case.get("configs") or [case["config"]],
+                                (case.get("lookups") or list(case["files"])) + ([case["lookup"]] if case.get("lookup") is not None else []), "replay")
+        kind = "layout"
+    if kind != "layout":
+        return 0
+    case = dict(case)
+    if "configs" not in case:
+        case["configs"] = [case["config"]]
+    if case.get("lookup") is not None and case["lookup"] not in case["lookups"]:
+        case["lookups"] = case["lookups"] + [case["lookup"]]
+    case.setdefault("serve", True)
+    from django.test import override_settings
+    roots = Roots()
+    ov = override_settings(STATICFILES_FINDERS=["django_components.finders.ComponentsFileSystemFinder"], STATIC_URL="/static/", DEBUG=True,
+                           INSTALLED_APPS=["django_components", "django.contrib.staticfiles"] + list(APPS))
+    ov.enable()
+    try:
+        base = roots.new()
+        pdirs = closure_dirs(case["pdirs"], case["pfiles"])
+        make_layout(base, pdirs, case["pfiles"])
+        set_app_paths(base, case)
+        lookups = [p.replace(BTOK, base) for p in case["lookups"]]
+        for cfg in case["configs"]:
+            obs = run_config(base, case, cfg, lookups, False, False)
+            print("config:", cfg)
+            print(" component directories (finder.locations):", obs["locs"])
+            print(" implementation list():", obs["listed"])
+            for p, (r1, ra) in zip(lookups, obs["finds"]):
+                print(" implementation find(%r) -> %r ; all=True -> %r" % (p, r1, ra))
+        shutil.rmtree(base, ignore_errors=True)
+        res = run_case(roots.new(), case, False)
+        bad = C.coq_eval_cases("C17", "replay", IMPORTS, "finder_case", "check_finder", [res["fterm"]])
+        if res["sterm"]:
+            bad += C.coq_eval_cases("C17", "replays", IMPORTS, "served_case", "check_served", [res["sterm"]])
+        print("model agrees with implementation:", not bad)
+        for trig, what, _ in res["fails"][:10]:
+            print("ORACLE FAILURE [%s]: %s" % (trig, what))
+        return 1 if res["fails"] else 0
+    finally:
+        ov.disable()
+        roots.cleanup()
